@@ -214,3 +214,13 @@ Qed.
 
 Theorem requeue_rechecks acts now u : In u (sync_unlocks acts now) -> nlook u now = Some Locked.
 Proof. unfold sync_unlocks. intros H. apply filter_In in H. apply still_locked_spec. tauto. Qed.
+
+(* residual window F21b: the re-check looks at the state only, not at the reason.  A requeue decided on an
+   older snapshot ("Locked, crunch-run exited") still unlocks a container that has meanwhile been requeued,
+   forgotten by the pool and locked again (pool.Running() no longer reports it) *)
+Theorem requeue_reason_not_rechecked_refuted :
+  ~ (forall acts now (running_now : rmap) u,
+       In u (sync_unlocks acts now) -> exists t, rlook u running_now = Some t /\ t <> 0).
+Proof.
+  intros H. destruct (H [ARequeue 7] [(7%N, Locked)] [] 7%N) as (t & Ht & _); [left; reflexivity|discriminate].
+Qed.
